@@ -116,6 +116,11 @@ def judge(case, impl, model):
     fails = list(dev)
     if "unbuildable" in impl or "abstraction_mismatch" in impl:
         return msg, fails
+    crash = S.reraise_crash(impl)
+    if crash:
+        fails.append((f"error-class:reraise-crash:{crash}", f"the constructor failed while building its own exception: {impl.get('err')}: {impl.get('msg')} for "
+                      + json.dumps(case["kw"])[:200]))
+        return msg, fails
     kind = S.top_kind(case)
     admits = model["admits"]
     if "ok" in impl:
